@@ -250,18 +250,22 @@ func (l *Lexer) GetLineAndCol(pos int) (string, int, int) {
 	// positions are byte offsets, so walk bytes: ranging over runes never visits
 	// an offset that lies inside a multi-byte character
 	for i := 0; i < len(l.src); i++ {
-		r := l.src[i]
-		if r == '\n' {
+		// a position on a newline belongs to the line that newline ends
+		if i == pos {
+			inLine = true
+			col = i - lineStart
+		}
+		if l.src[i] == '\n' {
 			if inLine {
 				return l.src[lineStart:i], line, col
 			}
 			line++
 			lineStart = i + 1
 		}
-		if i == pos {
-			inLine = true
-			col = i - lineStart
-		}
+	}
+	if !inLine {
+		// the position of the end of the input
+		col = len(l.src) - lineStart
 	}
 	return l.src[lineStart:], line, col
 }
